@@ -412,13 +412,14 @@ def run_tetra_case(case):
     # one divide() on every tetrahedron: children tile the parent and keep weight
     ntrans = 0
     for K, v, vol in list(zip(K_list, verts, vols))[:300]:
-        for ndiv in (2, 3):
+        # scalars (grid construction) and the 3-number refinement meshes run() passes as adpt_mesh (cubic or not)
+        for ndiv in (2, 3, np.array([2, 2, 2]), np.array([2, 3, 2]), np.array([3, 1, 2]), np.array([2, 2, 1])):
             P = K.copy()
             ch = P.divide(ndiv=ndiv, refine=True)
             ntrans += 1
             cverts = np.array([c.vertices + c.K[None, :] for c in ch])
             cv = vol_np(cverts)
-            if abs(cv.sum() - vol) > 1e-14 * max(1, vol) or len(ch) != ndiv:
+            if abs(cv.sum() - vol) > 1e-14 * max(1, vol) or (np.ndim(ndiv) == 0 and len(ch) != ndiv) or len(ch) < 1:
                 return {"ok": False, "key": "tetra:divide_changes_volume", "detail": f"{tag}: parent {vol} children {cv.tolist()}"}
             if abs(sum(c.factor for c in ch) - K.factor) > 1e-15 or P.factor != 0:
                 return {"ok": False, "key": "tetra:divide_changes_weight", "detail": f"{tag}: parent {K.factor} children {[c.factor for c in ch]}"}
